@@ -111,6 +111,33 @@ def gen_cases(rng, tier):
                 c = place(fresh(60, syntax), stamp, off)
                 c["tag"] = "%s@%s/skew=60/%s" % (stamp, off, syntax)
                 yield c
+    # the process time zone must not matter (all SAML times are UTC): the IssueInstant and window sweeps under zones
+    # west and east of Greenwich
+    for tz in ("PST8", "AEST-10", "EST5EDT,M3.2.0,M11.1.0"):
+        for skew in (None, 60):
+            for stamp in STAMPS:
+                for off in offsets(skew):
+                    if stamp != "ii" and abs(off or 0) > 3600:
+                        continue
+                    c = place(fresh(skew, "z"), stamp, off)
+                    c["env"]["tz"] = tz
+                    c["tag"] = "%s@%s/skew=%s/tz=%s" % (stamp, off, skew, tz.split(",")[0])
+                    yield c
+    # inverted windows whose two bounds lie within the same minute / hour / day, inside the skew band
+    for skew in (60, 180, 3600):
+        for which in ("cond", "sc"):
+            for nb_off, nooa_off in ((20, 5), (5, 4), (59, 0), (30, -20), (-5, -30), (1, 0), (0, -1), (50, 10), (3, 2)):
+                c = fresh(skew, "z")
+                c["env"]["now"] = S.NOW0 - (S.NOW0 % 60) + 0  # start of a minute: both bounds in the same minute
+                c["resp"]["issue_instant"] = c["env"]["now"]
+                a = c["resp"]["assertions"][0]
+                a["conditions"]["nooa"] = c["env"]["now"] + 600
+                a["subject"]["confs"][0]["data"]["nooa"] = c["env"]["now"] + 600
+                tgt = a["conditions"] if which == "cond" else a["subject"]["confs"][0]["data"]
+                tgt["nb"] = c["env"]["now"] + nb_off
+                tgt["nooa"] = c["env"]["now"] + nooa_off
+                c["tag"] = "inverted-same-minute:%s/%s>%s/skew=%s" % (which, nb_off, nooa_off, skew)
+                yield c
     n = 400 if tier == "quick" else 6000
     for _ in range(n):
         skew = rng.choice([None, 0, 60, 180, 7])
